@@ -135,11 +135,23 @@ func c05R1(c *Ctx) {
 
 func shapeOfVar(p *Prog, fn *FuncInfo, x ast.Expr) string {
 	info := fn.Info()
-	if o := identObj(info, x); o != nil {
-		ds := varDefs(fn, o)
-		if len(ds) == 1 && ds[0].rhs != nil {
-			return shapeOf(p, info, ds[0].rhs, 0).String()
+	// through locals that hold the key: the one definition that gives the variable a value
+	// (`var k string` followed by a single assignment counts as one)
+	for hop := 0; hop < 3; hop++ {
+		o := identObj(info, x)
+		if o == nil {
+			break
 		}
+		var valued []varDef
+		for _, d := range varDefs(fn, o) {
+			if d.rhs != nil {
+				valued = append(valued, d)
+			}
+		}
+		if len(valued) != 1 {
+			break
+		}
+		x = valued[0].rhs
 	}
 	return shapeOf(p, info, x, 0).String()
 }
